@@ -207,7 +207,12 @@ pub fn delete_any<P: AsRef<Path>>(path: P) -> std::io::Result<()> {
         // - unlink raises different exceptions on different OSes (linux: EISDIR, win32:
         // EACCES, OSX: EPERM) when invoked on a directory.
 
-        if path.is_dir() {
+        // lstat, not stat: a symlink pointing at a directory is removed with unlink.
+        if path
+            .symlink_metadata()
+            .map(|m| m.is_dir())
+            .unwrap_or(false)
+        {
             std::fs::remove_dir(path)
         } else {
             std::fs::remove_file(path)
